@@ -11,7 +11,7 @@ OBLIGATIONS = [
     'C16.blade_even_powers', 'C16.blade_odd_powers', 'C16.exp_on_blade', 'C16.exp_on_null_blade', 'C16.exp_on_scalar',
     'C16.squaring_undoes_scaling', 'C16.exp_commute', 'C16.cosh_plus_sinh_is_exp', 'C16.series_loop_invariant',
     'C16.even_series_parity', 'C16.odd_series_parity', 'C16.cos_cosh_on_blade', 'C16.sin_sinh_on_blade',
-    'C16.exp_on_scalar_matches_real_exp', 'C16.cos_sin_on_scalar_match_real', 'C16.cosh_sinh_on_scalar_match_real',
+    'C16.exp_on_scalar_matches_real_exp', 'C16.cos_sin_on_scalar_match_real', 'C16.cosh_sinh_on_scalar_match_real', 'C16.exp_on_blade_matches_closed_form',
 ]
 PARTIAL = ['on real scalars the closeness IS proved (exp with scaling and squaring within 1e-6 relative for |c| <= 2^18; cos, sin, cosh, sinh within 1e-12 for |c| <= 8: Mathlib remainder bounds; tan, tanh are quotients of these); '
            'for blades it reduces to the same scalar statements for C_N(s), S_N(s); for general multivectors '
